@@ -1081,7 +1081,7 @@ impl TDigestView<'_> {
                     // are added below the first centroid of a deserialized digest)
                     let half = self.centroids[0].weight() / 2.;
                     let below = half.min(1.);
-                    (below + (((value - self.min) / (first_mean - self.min)) * (half - below)))
+                    (below + (fraction(value, self.min, first_mean) * (half - below)))
                         / centroids_weight
                 });
             }
@@ -1097,8 +1097,7 @@ impl TDigestView<'_> {
                 } else {
                     let half = self.centroids[num_centroids - 1].weight() / 2.;
                     let above = half.min(1.);
-                    1.0 - ((above
-                        + (((self.max - value) / (self.max - last_mean)) * (half - above)))
+                    1.0 - ((above + (fraction(value, self.max, last_mean) * (half - above)))
                         / centroids_weight)
                 });
             }
@@ -1140,8 +1139,12 @@ impl TDigestView<'_> {
         Some(
             if self.centroids[upper].mean - self.centroids[lower].mean > 0. {
                 (weight_below
-                    + (weight_delta * (value - self.centroids[lower].mean)
-                        / (self.centroids[upper].mean - self.centroids[lower].mean)))
+                    + (weight_delta
+                        * fraction(
+                            value,
+                            self.centroids[lower].mean,
+                            self.centroids[upper].mean,
+                        )))
                     / centroids_weight
             } else {
                 (weight_below + weight_delta / 2.) / centroids_weight
@@ -1172,11 +1175,11 @@ impl TDigestView<'_> {
         }
         let first_weight = self.centroids[0].weight();
         if first_weight > 1. && weight < first_weight / 2. {
-            return Some(
-                self.min
-                    + (((weight - 1.) / ((first_weight / 2.) - 1.))
-                        * (self.centroids[0].mean - self.min)),
-            );
+            return Some(lerp(
+                self.min,
+                self.centroids[0].mean,
+                (weight - 1.) / ((first_weight / 2.) - 1.),
+            ));
         }
         let last_weight = self.centroids[num_centroids - 1].weight();
         if last_weight > 1. && (centroids_weight - weight <= last_weight / 2.) {
@@ -1185,11 +1188,11 @@ impl TDigestView<'_> {
                 // (the interpolation below would divide zero by zero)
                 return Some(self.max);
             }
-            return Some(
-                self.max
-                    - (((centroids_weight - weight - 1.) / ((last_weight / 2.) - 1.))
-                        * (self.max - self.centroids[num_centroids - 1].mean)),
-            );
+            return Some(lerp(
+                self.max,
+                self.centroids[num_centroids - 1].mean,
+                (centroids_weight - weight - 1.) / ((last_weight / 2.) - 1.),
+            ));
         }
 
         // interpolate between extremes
@@ -1371,5 +1374,32 @@ mod scale_function {
 }
 
 const fn weighted_average(x1: f64, w1: f64, x2: f64, w2: f64) -> f64 {
-    (x1 * w1 + x2 * w2) / (w1 + w2)
+    let sum = x1 * w1 + x2 * w2;
+    if sum.is_finite() {
+        sum / (w1 + w2)
+    } else {
+        // the products overflow for means near f64::MAX; scale the weights first
+        x1 * (w1 / (w1 + w2)) + x2 * (w2 / (w1 + w2))
+    }
+}
+
+/// How far `value` is on the way from `from` to `to`, as a fraction in `[0, 1]`.
+fn fraction(value: f64, from: f64, to: f64) -> f64 {
+    let span = to - from;
+    if span.is_finite() {
+        (value - from) / span
+    } else {
+        // the span overflows when the two ends are near -f64::MAX and f64::MAX
+        (value / 2. - from / 2.) / (to / 2. - from / 2.)
+    }
+}
+
+/// `from + t * (to - from)` for `t` in `[0, 1]`, without overflowing on the difference.
+fn lerp(from: f64, to: f64, t: f64) -> f64 {
+    let delta = to - from;
+    if delta.is_finite() {
+        from + t * delta
+    } else {
+        from * (1. - t) + to * t
+    }
 }
